@@ -24,6 +24,7 @@ EXPLANATION = (
     "and handed to a checking stage (collect_schema_components, check_column_presence, ...) is recomputed after the "
     "last parsing stage that replaces X on every path - otherwise the checks are driven by the un-parsed columns. (R4) strict='filter' drops exactly the undeclared columns of the incoming frame (accumulator filled over column_info.destuttered_column_names under `strict == 'filter' and not in expanded_column_names`); (R5) the polars container fills the default of every column that declares one, with no extra condition; (R6) pandas add_missing_columns, while ranging over the frame's columns, iterates the insertion of pending missing columns (a run of several missing columns ahead of an existing one is placed in schema order); (R7) the pandas column / index / multi-index backends, which delegate to super().validate on an object derived from the working object, themselves store the coerced value back into the working object under schema.coerce. " 
     " (R8) the result of a helper that returns the parsed object on success and None after collecting an error is stored into / becomes the working object only under a None test. " 
+    " R7 also requires the write-back to be conditional on schema.coerce only (not on a dtype comparison, which object-backed dtypes satisfy for any content). " 
     "NOT decided: that the output re-validates (a fixpoint property over values)."
 )
 LEVEL_RULE = "one obligation per stage call / return in the validate methods and parser pipelines"
